@@ -45,6 +45,11 @@ def run_algo_property(pid, prop_file, tier, seed, want, level="proof"):
             return rep.finish()
         rng = vlib.Rng(seed).fork(pid)
         cases = gen_exec_cases(tier, rng, want)
+        ph = os.path.join(sdir, "hc.cases"); vlib.write_cases(ph, ["hc"])
+        try:
+            hc = int(vlib.run_impl(binary, ph)[0])
+        except Exception:
+            hc = 0
         groups = []   # C08 / C12 families: lists of case positions that must agree with each other
         if "c08" in want:
             nfam = 40 if tier == "quick" else 1500
@@ -52,6 +57,7 @@ def run_algo_property(pid, prop_file, tier, seed, want, level="proof"):
                 nl = len(set(tc.leaf_indices()))
                 Bs = sorted(set([1, 2, 3, 5, 7, max(1, nl // 2), nl, nl + 1, 10000000]))
                 if nl <= 9: Bs = sorted(set(list(range(1, nl + 2)) + [10000000]))
+                if hc > 0: Bs = Bs + [-hc]          # the automatic block size
                 fam = []
                 for B in Bs:
                     for mode in (0, 1):
@@ -104,7 +110,7 @@ def run_algo_property(pid, prop_file, tier, seed, want, level="proof"):
         def nontrivial(c, line):
             return " M2L " in line and " M2M " in line and line.count("[") > 6
 
-        impl, model = vlib.differential(rep, binary, texts, sdir, "exec", canon=canon, oracle=oracle, nontrivial=nontrivial,
+        impl, model = vlib.differential(rep, binary, texts, sdir, "exec", canon=canon, oracle=oracle, nontrivial=nontrivial, model_cases=[A.exec_model_text(x) for x in texts],
                                         clause=lambda c: "%s:d%s" % (c.split()[0], c.split()[1]))
         # exact batched sequence agreement (diagnostic only)
         nseq = 0
